@@ -794,12 +794,21 @@ class Model(Object):
                     obj_coef = reaction.objective_coefficient
 
                     if obj_coef != 0:
-                        context(
-                            partial(
-                                self.solver.objective.set_linear_coefficients,
-                                {forward: obj_coef, reverse: -obj_coef},
+                        # Look up the objective and the (re-created) variables
+                        # when undoing: both may have been replaced meanwhile.
+                        def restore_objective_coefficient(
+                            forward_id=reaction.id,
+                            reverse_id=reaction.reverse_id,
+                            coefficient=obj_coef,
+                        ) -> None:
+                            self.solver.objective.set_linear_coefficients(
+                                {
+                                    self.variables[forward_id]: coefficient,
+                                    self.variables[reverse_id]: -coefficient,
+                                }
                             )
-                        )
+
+                        context(restore_objective_coefficient)
 
                     context(partial(self._populate_solver, [reaction]))
                     context(partial(setattr, reaction, "_model", self))
